@@ -69,7 +69,12 @@ def judge(P, cases, impl, model, ctx):
         d = diff_case(io, mo) if mo is not None else None
         if d is not None:
             disagreements.append((case, d))
-        for cls, text in P.oracle(case, io, mo):
+        found = list(P.oracle(case, io, mo))
+        for j, l in enumerate(io["obs"]):
+            if l.startswith("D") and "POISONED" in l[:12]:
+                found.append(("node-wedged", "after step %d a lock of the node is poisoned: every later command on it fails" % (j // 2)))
+                break
+        for cls, text in found:
             failures.append((case, cls, text, d is None and mo is not None))
     return disagreements, failures
 
